@@ -30,6 +30,7 @@ CONSTANTS
     InitBacklog,    \* initial backlog of every existing subscription
     \* --- switches: TRUE = repaired behaviour
     DeleteDrainsMailbox,    \* D1: the subscription actor keeps serving its mailbox while it waits for the topic
+    SecondDeleteWaits,      \* a Delete drained during a deletion in progress is answered when that deletion is done
     ClosedMeansNotFound,    \* D2: a stream whose pull hits a closed mailbox ends with NOT_FOUND
     PullWatchesDeleted,     \* D3: a blocked pull also waits on the deletion signal
     AttachDetached,         \* D4: the attach step of create runs in its own task
@@ -50,6 +51,7 @@ VARIABLES
     exists,     \* set of subscriptions registered in the manager
     sbusy,      \* [Subs -> "idle" | "delwait"]: delwait = Delete handler awaits the topic's answer
     sdeleter,   \* [Subs -> process whose Delete is being handled]
+    salso,      \* [Subs -> set of processes whose Delete arrived while a deletion was in progress]
     deleted,    \* [Subs -> BOOLEAN] the actor's deleted flag
     backlog,    \* [Subs -> Nat]
     leased,     \* [Subs -> Nat]
@@ -64,7 +66,7 @@ VARIABLES
     res,        \* [Procs -> outcome]
     got         \* [Procs -> number of messages a consumer received]
 
-vars == <<tbox, sbox, tdeleted, sclosed, tbusy, tpub, attached, exists, sbusy, sdeleter, deleted, backlog, leased,
+vars == <<tbox, sbox, tdeleted, sclosed, tbusy, tpub, attached, exists, sbusy, sdeleter, salso, deleted, backlog, leased,
           expiries, permit, waiters, gen, delsig, pc, sig, sgen, res, got>>
 
 Topic == "T"
@@ -103,7 +105,7 @@ Init ==
     /\ tdeleted = FALSE /\ sclosed = [s \in Subs |-> FALSE]
     /\ tbusy = "idle" /\ tpub = "none"
     /\ attached = InitAttached /\ exists = InitAttached
-    /\ sbusy = [s \in Subs |-> "idle"] /\ sdeleter = [s \in Subs |-> "none"]
+    /\ sbusy = [s \in Subs |-> "idle"] /\ sdeleter = [s \in Subs |-> "none"] /\ salso = [s \in Subs |-> {}]
     /\ deleted = [s \in Subs |-> FALSE]
     /\ backlog = [s \in Subs |-> IF s \in InitAttached THEN InitBacklog ELSE 0]
     /\ leased = [s \in Subs |-> 0]
@@ -134,7 +136,7 @@ StartSubReq(p) ==
        ELSE /\ sbox' = [sbox EXCEPT ![Target[p]] = Append(@, Req(Kind[p], p, 0))]
             /\ pc' = [pc EXCEPT ![p] = "wait"]
             /\ UNCHANGED res
-    /\ UNCHANGED <<tbox, tdeleted, sclosed, tbusy, tpub, attached, exists, sbusy, sdeleter, deleted, backlog, leased,
+    /\ UNCHANGED <<tbox, tdeleted, sclosed, tbusy, tpub, attached, exists, sbusy, sdeleter, salso, deleted, backlog, leased,
                    expiries, permit, waiters, gen, delsig, sig, sgen, got>>
 
 \* Requests addressed to the topic.
@@ -142,7 +144,7 @@ StartTopicReq(p) ==
     /\ pc[p] = "start" /\ Kind[p] \in {"publish", "list", "tdelete"}
     /\ tbox' = Append(tbox, Req(Kind[p], p, 0))
     /\ pc' = [pc EXCEPT ![p] = "wait"]
-    /\ UNCHANGED <<sbox, tdeleted, sclosed, tbusy, tpub, attached, exists, sbusy, sdeleter, deleted, backlog, leased,
+    /\ UNCHANGED <<sbox, tdeleted, sclosed, tbusy, tpub, attached, exists, sbusy, sdeleter, salso, deleted, backlog, leased,
                    expiries, permit, waiters, gen, delsig, sig, sgen, res, got>>
 
 \* CreateSubscription: manager insert, then the attach request to the topic.
@@ -155,7 +157,7 @@ StartCreate(p) ==
             /\ tbox' = Append(tbox, Req("attach", p, Target[p]))
             /\ pc' = [pc EXCEPT ![p] = "wait"]
             /\ UNCHANGED res
-    /\ UNCHANGED <<sbox, tdeleted, sclosed, tbusy, tpub, attached, sbusy, sdeleter, deleted, backlog, leased,
+    /\ UNCHANGED <<sbox, tdeleted, sclosed, tbusy, tpub, attached, sbusy, sdeleter, salso, deleted, backlog, leased,
                    expiries, permit, waiters, gen, delsig, sig, sgen, got>>
 
 (***************************************************************************)
@@ -196,7 +198,7 @@ TopicTurn ==
                       /\ tbusy' = "publishing" /\ tpub' = r.from
                       /\ UNCHANGED <<attached, sbusy, sdeleter, deleted, delsig, waiters, sig, exists, backlog, leased, pc, res>>
     /\ (Head(tbox).kind # "tdelete" => UNCHANGED tdeleted)
-    /\ UNCHANGED <<sclosed, expiries, permit, gen, sgen, got>>
+    /\ UNCHANGED <<sclosed, expiries, permit, gen, sgen, got, salso>>
 
 \* All posts of the current publish are in their mailboxes (or consumed): answer the publisher.
 PostParked(s) == \E i \in 1..Len(sbox[s]) : sbox[s][i].kind = "post" /\ ~InBox(sbox[s], i)
@@ -205,7 +207,7 @@ TopicPublishDone ==
     /\ \A s \in Subs : ~PostParked(s)
     /\ tbusy' = "idle" /\ tpub' = "none"
     /\ LET a == Answer(tpub, "OK", pc, res) IN pc' = a[1] /\ res' = a[2]
-    /\ UNCHANGED <<tbox, sbox, tdeleted, sclosed, attached, exists, sbusy, sdeleter, deleted, backlog, leased,
+    /\ UNCHANGED <<tbox, sbox, tdeleted, sclosed, attached, exists, sbusy, sdeleter, salso, deleted, backlog, leased,
                    expiries, permit, waiters, gen, delsig, sig, sgen, got>>
 
 (***************************************************************************)
@@ -251,7 +253,10 @@ SubHandle(s, r) ==
             /\ LET a == Answer(r.from, "OK", pc, res) IN pc' = a[1] /\ res' = a[2]
             /\ UNCHANGED <<got, deleted, sbusy, sdeleter, tbox>>
       [] r.kind = "delete" ->
-            IF deleted[s]
+            IF deleted[s] /\ sbusy[s] = "delwait" /\ SecondDeleteWaits
+            THEN \* remembered; answered by SubDeleteResume
+                 UNCHANGED <<backlog, leased, permit, waiters, sig, pc, res, got, deleted, sbusy, sdeleter, tbox>>
+            ELSE IF deleted[s]
             THEN /\ LET a == Answer(r.from, "OK", pc, res) IN pc' = a[1] /\ res' = a[2]
                  /\ UNCHANGED <<backlog, leased, permit, waiters, sig, got, deleted, sbusy, sdeleter, tbox>>
             ELSE \* set the flag, ask the topic to drop us, wait for its answer
@@ -267,6 +272,8 @@ SubTurn(s) ==
        \/ (sbusy[s] = "delwait" /\ DeleteDrainsMailbox)     \* repaired: keeps serving (no-ops) while waiting
     /\ sbox' = [sbox EXCEPT ![s] = Tail(@)]
     /\ SubHandle(s, Head(sbox[s]))
+    /\ salso' = IF Head(sbox[s]).kind = "delete" /\ deleted[s] /\ sbusy[s] = "delwait" /\ SecondDeleteWaits
+                THEN [salso EXCEPT ![s] = @ \cup {Head(sbox[s]).from}] ELSE salso
     /\ UNCHANGED <<tdeleted, sclosed, tbusy, tpub, attached, exists, expiries, gen, delsig, sgen>>
 
 \* The topic answered the removal: manager removal, deletion signal, clear, answer the deleter.
@@ -278,8 +285,9 @@ SubDeleteResume(s) ==
     /\ gen' = [gen EXCEPT ![s] = @ + 1]
     /\ LET n == NotifyWaiters(s, waiters, sig) IN waiters' = n[1] /\ sig' = n[2]
     /\ backlog' = [backlog EXCEPT ![s] = 0] /\ leased' = [leased EXCEPT ![s] = 0]
-    /\ LET a == Answer(sdeleter[s], "OK", pc, res) IN pc' = a[1] /\ res' = a[2]
-    /\ sdeleter' = [sdeleter EXCEPT ![s] = "none"]
+    /\ pc' = [p \in Procs |-> IF (p = sdeleter[s] \/ p \in salso[s]) /\ pc[p] = "wait" THEN "done" ELSE pc[p]]
+    /\ res' = [p \in Procs |-> IF (p = sdeleter[s] \/ p \in salso[s]) /\ pc[p] = "wait" THEN "OK" ELSE res[p]]
+    /\ sdeleter' = [sdeleter EXCEPT ![s] = "none"] /\ salso' = [salso EXCEPT ![s] = {}]
     /\ UNCHANGED <<tbox, sbox, tdeleted, sclosed, tbusy, tpub, attached, deleted, expiries, permit, sgen, got>>
 
 \* The actor task ends: the mailbox closes, queued requests are dropped (their callers see
@@ -292,7 +300,7 @@ SubExit(s) ==
                 IF HasReq(sbox[s], p) /\ pc[p] = "wait"
                 THEN (IF Kind[p] \in {"bpull", "stream"} THEN "pulled" ELSE "done") ELSE pc[p]]
     /\ res' = [p \in Procs |-> IF HasReq(sbox[s], p) /\ pc[p] = "wait" THEN "CLOSED" ELSE res[p]]
-    /\ UNCHANGED <<tbox, tdeleted, tbusy, tpub, attached, exists, sbusy, sdeleter, deleted, backlog, leased,
+    /\ UNCHANGED <<tbox, tdeleted, tbusy, tpub, attached, exists, sbusy, sdeleter, salso, deleted, backlog, leased,
                    expiries, permit, waiters, gen, delsig, sig, sgen, got>>
 
 \* An outstanding delivery expires (the actor is in its select loop, not inside a handler).
@@ -302,7 +310,7 @@ SubExpire(s) ==
     /\ leased' = [leased EXCEPT ![s] = @ - 1]
     /\ backlog' = [backlog EXCEPT ![s] = @ + 1]
     /\ LET n == NotifyOne(s, waiters, permit, sig) IN waiters' = n[1] /\ permit' = n[2] /\ sig' = n[3]
-    /\ UNCHANGED <<tbox, sbox, tdeleted, sclosed, tbusy, tpub, attached, exists, sbusy, sdeleter, deleted,
+    /\ UNCHANGED <<tbox, sbox, tdeleted, sclosed, tbusy, tpub, attached, exists, sbusy, sdeleter, salso, deleted,
                    gen, delsig, pc, sgen, res, got>>
 
 (***************************************************************************)
@@ -323,7 +331,7 @@ ConsLookup(p) ==
     /\ IF ~SubLookupOk(p)
        THEN pc' = [pc EXCEPT ![p] = "done"] /\ res' = [res EXCEPT ![p] = "NOT_FOUND"]
        ELSE pc' = [pc EXCEPT ![p] = "loop"] /\ UNCHANGED res
-    /\ UNCHANGED <<tbox, sbox, tdeleted, sclosed, tbusy, tpub, attached, exists, sbusy, sdeleter, deleted, backlog, leased,
+    /\ UNCHANGED <<tbox, sbox, tdeleted, sclosed, tbusy, tpub, attached, exists, sbusy, sdeleter, salso, deleted, backlog, leased,
                    expiries, permit, waiters, gen, delsig, sig, sgen, got>>
 
 \* `let signal = subscription.messages_available();` then send the pull.
@@ -336,7 +344,7 @@ ConsSignalAndSend(p) ==
           THEN /\ pc' = [pc EXCEPT ![p] = "pulled"] /\ res' = [res EXCEPT ![p] = "CLOSED"] /\ UNCHANGED sbox
           ELSE /\ sbox' = [sbox EXCEPT ![s] = Append(@, Req("cpull", p, 0))]
                /\ pc' = [pc EXCEPT ![p] = "wait"] /\ UNCHANGED res
-    /\ UNCHANGED <<tbox, tdeleted, sclosed, tbusy, tpub, attached, exists, sbusy, sdeleter, deleted, backlog, leased,
+    /\ UNCHANGED <<tbox, tdeleted, sclosed, tbusy, tpub, attached, exists, sbusy, sdeleter, salso, deleted, backlog, leased,
                    expiries, permit, waiters, gen, delsig, got>>
 
 \* The pull was answered.
@@ -357,7 +365,7 @@ ConsAfterPull(p) ==
             /\ sig' = [sig EXCEPT ![p] = IF SignalCreatedAfterPull THEN "init" ELSE @]
             /\ sgen' = [sgen EXCEPT ![p] = IF SignalCreatedAfterPull THEN gen[s] ELSE @]
             /\ UNCHANGED res
-    /\ UNCHANGED <<tbox, sbox, tdeleted, sclosed, tbusy, tpub, attached, exists, sbusy, sdeleter, deleted, backlog, leased,
+    /\ UNCHANGED <<tbox, sbox, tdeleted, sclosed, tbusy, tpub, attached, exists, sbusy, sdeleter, salso, deleted, backlog, leased,
                    expiries, permit, waiters, gen, delsig, got>>
 
 SigReady(p) ==
@@ -386,7 +394,7 @@ ConsAwait(p) ==
           /\ sig' = [sig EXCEPT ![p] = "waiting"]
           /\ waiters' = [waiters EXCEPT ![s] = Append(@, p)]
           /\ UNCHANGED <<permit, pc, res>>
-    /\ UNCHANGED <<tbox, sbox, tdeleted, sclosed, tbusy, tpub, attached, exists, sbusy, sdeleter, deleted, backlog, leased,
+    /\ UNCHANGED <<tbox, sbox, tdeleted, sclosed, tbusy, tpub, attached, exists, sbusy, sdeleter, salso, deleted, backlog, leased,
                    expiries, gen, delsig, sgen, got>>
 
 \* A blocked unary pull returns empty when its own wait limit fires (the only timer that may
@@ -395,7 +403,7 @@ PullTimeout(p) ==
     /\ pc[p] = "await" /\ Kind[p] = "bpull" /\ sig[p] = "waiting"
     /\ pc' = [pc EXCEPT ![p] = "done"] /\ res' = [res EXCEPT ![p] = "TIMEOUT_EMPTY"]
     /\ LET d == DropSig(p) IN waiters' = d[1] /\ permit' = d[2] /\ sig' = d[3]
-    /\ UNCHANGED <<tbox, sbox, tdeleted, sclosed, tbusy, tpub, attached, exists, sbusy, sdeleter, deleted, backlog, leased,
+    /\ UNCHANGED <<tbox, sbox, tdeleted, sclosed, tbusy, tpub, attached, exists, sbusy, sdeleter, salso, deleted, backlog, leased,
                    expiries, gen, delsig, sgen, got>>
 
 (***************************************************************************)
@@ -420,7 +428,7 @@ Cancel(p) ==
        IN IF parkedPull
           THEN waiters' = n[1] /\ permit' = n[2] /\ sig' = n[3]
           ELSE waiters' = d[1] /\ permit' = d[2] /\ sig' = d[3]
-    /\ UNCHANGED <<tdeleted, sclosed, tbusy, tpub, attached, exists, sbusy, sdeleter, deleted, backlog, leased,
+    /\ UNCHANGED <<tdeleted, sclosed, tbusy, tpub, attached, exists, sbusy, sdeleter, salso, deleted, backlog, leased,
                    expiries, gen, delsig, sgen, got>>
 
 (***************************************************************************)
@@ -483,6 +491,11 @@ C12_Status ==
     \A p \in Procs : (Kind[p] = "stream" /\ pc[p] = "done" /\ delsig[Target[p]]) => res[p] = "NOT_FOUND"
 
 \* C16: at rest, every subscription that exists is attached, and no actor is stuck in a handler.
+\* C10: a DeleteSubscription is answered OK only once the subscription is gone from the manager.
+C10_DeleteAnswered ==
+    [][\A p \in Procs : (Kind[p] = "delete" /\ pc[p] # "done" /\ pc'[p] = "done" /\ res'[p] = "OK")
+                            => Target[p] \notin exists']_vars
+
 C16_Attached ==
     (Stable /\ ~tdeleted) => \A s \in exists : (~deleted[s] => s \in attached)
 
